@@ -111,7 +111,7 @@ def gen_history(rng, limit, timeout):
     """ops over 5 invocations / 4 runners; clock steps land exactly on, 1us before and 1us after cut-offs"""
     ops = []
     steps = [0.0, 0.25, 1.0, limit - 0.000001, limit, limit + 0.000001, limit / 2,
-             timeout - 0.000001, timeout, timeout + 0.000001, timeout / 2]
+             timeout - 0.000001, timeout, timeout + 0.000001, timeout / 2, timeout / 12, timeout * 0.95]
     for _ in range(rng.randint(6, 30)):
         r = rng.random()
         if r < 0.18:
@@ -121,7 +121,7 @@ def gen_history(rng, limit, timeout):
         elif r < 0.36:
             ops.append(("finish", rng.randrange(5), rng.choice(["SUCCESS", "RETRY", "KILLED"])))
         elif r < 0.50:
-            ops.append(("hb", rng.sample(RUNNERS[:3], rng.randint(1, 2))))
+            ops.append(("hb" if rng.random() < 0.7 else "hb_svc", rng.sample(RUNNERS[:3], rng.randint(1, 2))))
         elif r < 0.56:
             ops.append(("parent_hb", rng.choice([["c1"], []])))
         elif r < 0.74:
@@ -224,8 +224,12 @@ def run_history(ctx: Ctx, kind, scratch, ops, limit, dead_min, queries, tag):
         for _ in range(5):
             s.register()
             clock.advance(0.25)
+        true_hb: dict = {}                      # what the history itself says: runner -> time of its last heartbeat (own or reported)
         for k, op in enumerate(ops):
             name = op[0]
+            if name in ("hb", "hb_svc", "parent_hb"):
+                for r_ in op[1]:
+                    true_hb[r_] = us(clock.now)
             if name == "claim":
                 s.set(op[1], "PENDING", op[2])
             elif name == "start":
@@ -236,6 +240,8 @@ def run_history(ctx: Ctx, kind, scratch, ops, limit, dead_min, queries, tag):
                 s.set(op[1], op[2], rec[1])
             elif name == "hb":
                 s.app.orchestrator.register_runner_heartbeats(op[1])
+            elif name == "hb_svc":
+                s.app.orchestrator.register_runner_heartbeats(op[1], can_run_atomic_service=True)
             elif name == "parent_hb":
                 BaseRunner._report_child_runner_heartbeats(ParentStub(s.app, op[1]))
             elif name == "adv":
@@ -250,7 +256,15 @@ def run_history(ctx: Ctx, kind, scratch, ops, limit, dead_min, queries, tag):
                 else:
                     got = sorted(s.ids.index(x) for x in s.app.orchestrator.get_running_invocations_for_recovery())
                     cutoff = now - us(s.timeout)
-                    fresh = {r for r, t in hb if t >= cutoff}
+                    stored = dict(hb)
+                    lost = sorted(r_ for r_, t_ in true_hb.items() if stored.get(r_) != t_)
+                    if lost:
+                        ctx.violation(f"heartbeat:{kind}:not-recorded",
+                                      f"{kind}: heartbeats sent in this history are not what the backend holds: runner(s) {lost}: sent at "
+                                      f"{[true_hb[r_] for r_ in lost]}, stored {[stored.get(r_) for r_ in lost]} (now={now}us)",
+                                      {"kind": "history", "backend": kind, "ops": ops[:k + 1], "limit": limit, "dead_min": dead_min,
+                                       "observed": hb, "expected": sorted(true_hb.items())})
+                    fresh = {r for r, t in true_hb.items() if t >= cutoff}
                     want = sorted(i for i, (st, o, t) in enumerate(recs) if st == "RUNNING" and o is not None and o not in fresh)
                     expr = (f"mem_running_scan mem_hb_ge {now} {us(s.timeout)} {coq_hb(hb)} {coq_store(recs)}" if kind == "mem" else
                             f"sql_running_scan sqlite_hb_ge sqlite_never_hb_selected {now} {us(s.timeout)} {coq_hb(hb)} {coq_store(recs)}")
@@ -408,7 +422,11 @@ def main(ctx: Ctx) -> int:
                        # an owner that has been silent for longer than the time-out but STARTED an invocation only a moment ago: the
                        # start of an invocation is not a sign of life of its runner
                        ("hb", [RUNNERS[2]]), ("adv", t - 1.0), ("claim", 3, RUNNERS[2]), ("start", 3), ("adv", 2.0), ("scan_running",),
-                       ("claim", 4, "c1"), ("start", 4), ("adv", t), ("scan_running",), ("recover_running", True), ("scan_running",)]
+                       ("claim", 4, "c1"), ("start", 4), ("adv", t), ("scan_running",), ("recover_running", True), ("scan_running",),
+                       # every heartbeat counts, whatever eligibility flag it carries and however soon it follows the previous one
+                       ("hb_svc", [RUNNERS[0]]), ("claim", 0, RUNNERS[0]), ("start", 0), ("adv", t * 0.9), ("hb", [RUNNERS[0]]), ("adv", t * 0.5),
+                       ("scan_running",), ("hb", [RUNNERS[1]]), ("claim", 2, RUNNERS[1]), ("start", 2), ("adv", t / 12), ("hb", [RUNNERS[1]]),
+                       ("adv", t * 0.95), ("scan_running",), ("recover_running", True), ("scan_running",)]
             for o in ops:
                 opcount[o[0]] = opcount.get(o[0], 0) + 1
             for kind in ("mem", "sqlite"):
